@@ -37,7 +37,40 @@ Inductive pclass :=
 | PRestored   (* the last thing the body does with it, unconditionally, is reset it (clear()) *)
 | PStale.     (* anything else: may carry state from one iteration to the next *)
 
-Record pvar := mkPvar { p_name : string; p_class : pclass }.
+(* what the loop body does with ONE private persistent variable, in source order, at whole-object
+   granularity (an element write inside a loop counts as a write of the object):
+     EW plain write (=, for-init, compute(), setConstant()),  ERMW compound assignment / ++,
+     ER read,  EM other mutating call (push, insert, extract_min ...),  ECLR clear().
+   e_cond: inside if / while (may not execute); e_top: a top-level statement of the loop body. *)
+Inductive pev := EW | ERMW | ER | EM | ECLR.
+Record pevent := mkEv { e_kind : pev; e_cond : bool; e_top : bool }.
+
+Definition ev_writes (e : pevent) : bool := match e_kind e with ER => false | _ => true end.
+
+(* the class is COMPUTED here from the events the translator lists; the translator's own opinion
+   (p_class) must agree *)
+Definition classify (evs : list pevent) : pclass :=
+  if negb (existsb ev_writes evs) then PConst
+  else match evs with
+       | [] => PConst
+       | e :: _ =>
+           match e_kind e, e_cond e with
+           | EW, false => PInit
+           | _, _ =>
+               match last evs (mkEv ER true false) with
+               | mkEv ECLR false true => PRestored
+               | _ => PStale
+               end
+           end
+       end.
+
+Definition pclass_eqb (a b : pclass) : bool :=
+  match a, b with
+  | PConst, PConst | PInit, PInit | PRestored, PRestored | PStale, PStale => true
+  | _, _ => false
+  end.
+
+Record pvar := mkPvar { p_name : string; p_class : pclass; p_events : list pevent }.
 
 Record region := mkRegion {
   r_name : string; r_shared : list access; r_private : list pvar }.
@@ -102,7 +135,9 @@ Definition access_ok (accs : list access) (a : access) : bool :=
 Definition check_shared (accs : list access) : bool := forallb (access_ok accs) accs.
 
 Definition pclass_ok (c : pclass) : bool := match c with PStale => false | _ => true end.
-Definition check_private (ps : list pvar) : bool := forallb (fun p => pclass_ok (p_class p)) ps.
+Definition pvar_ok (p : pvar) : bool :=
+  pclass_ok (p_class p) && pclass_eqb (p_class p) (classify (p_events p)).
+Definition check_private (ps : list pvar) : bool := forallb pvar_ok ps.
 
 Definition check_region (r : region) : bool := check_shared (r_shared r) && check_private (r_private r).
 
